@@ -63,6 +63,15 @@ package parse
 //@   loop 2 invariant idx > 0 ==> reached("strings.Split#1")
 //@   at call strings.Split#1 assert arg1 == "\n" && strings.Contains(comments[idx], arg0) && len(arg0) + 4 >= len(comments[idx])
 
+// C13/C19: trimming only removes a suffix: the result is a prefix of the line, never longer, and the scan stays inside
+// the string and terminates (i decreases)
+//@ func stripTrailingWhitespace(s)
+//@   props C19 C13
+//@   pure
+//@   loop 1 invariant 0 <= i && i <= len(s)
+//@   loop 1 decreases i
+//@   ensures strings.HasPrefix(s, result) && len(result) <= len(s)
+
 // ---- C15: @cwd/ paths are resolved against the working directory, everything else is kept ----
 //@ func File(cwd, rest)
 //@   props C15 C09
